@@ -22,7 +22,11 @@ def design(ctx):
     """(a) model-level laws of Locs: composition (position independence), locations exist, no duplicates,
     slice readings coincide in the strict region."""
     cfg = "JsonPathLaws_small.cfg" if ctx.quick else "JsonPathLaws_big.cfg"
-    ctx.design("JsonPathLaws", cfg, workers=4 if ctx.quick else 8, coverage=not ctx.quick, heap="6g" if ctx.quick else "10g", timeout=1200)
+    ctx.design("JsonPathLaws", cfg, workers=4 if ctx.quick else 8, heap="6g" if ctx.quick else "10g", timeout=1200)
+    if not ctx.quick:
+        # vacuity (-coverage 1) in a run of its own without the invariants: TLC's coverage cost model inlines every operator
+        # application, and with the invariants (Locs is applied in some sixty places) it no longer fits in memory
+        ctx.design("JsonPathLaws", "JsonPathLaws_cov.cfg", workers=2, coverage=True, heap="2g", timeout=300)
 
 
 def gen_cases(ctx, nrand, nodesc_last=False, full=None, lite=False):
